@@ -117,6 +117,12 @@ def touched_fields(fb, f, depth=3, seen=None):
 
 
 def run(fb, rep, tier):
+    _run(fb, rep, tier)
+    tolerance_siblings(fb, rep)
+    guard_is_resource(fb, rep)
+
+
+def _run(fb, rep, tier):
     rep.extra['explanation'] = EXPLANATION
     rep.extra['assumptions'] = ['a member that no public observer reads is not required to be copied (scratch space, statistics)',
                                 'observer read sets are computed through const callees up to depth 3']
@@ -652,3 +658,77 @@ def run(fb, rep, tier):
     for f in fb.methods_of('soplex::Random'):
         bad = [n for n in f.nodes if n.k == 'CallExpr' and n.short in ('time', 'clock', 'getpid', 'rand')]
         rep.check(not bad, 'R17.4', 'Random::%s|pure' % f.short, f.where(), 'depends only on its own state', 'soplex::Random::%s reads %s' % (f.short, bad[0].short if bad else ''))
+
+
+def tolerance_siblings(fb, rep):
+    """R17.9: the semi-sparse work vectors of a class carry a Tolerances pointer that their assignment operator consults.  Where a class hands
+    tolerances to one of its SSVectorBase / UpdateVector members, it hands them to all of them in the same function: a member that is left
+    out aborts (assertions) or silently uses epsilon 0 when the object is copied.  (F74: SPxSteepPR::setType forgot workVec.)"""
+    rep.rule('R17.9', 'a function that passes tolerances to one semi-sparse member vector of its class passes them to all of them', floor=4)
+    k = 0
+    for cn, c in sorted(fb.classes.items()):
+        if not cn.startswith('soplex::') or 'Rational' in cn or 'number<' in cn:
+            continue
+        members = [fl['n'] for fl in c['fields'] if re.search(r'\b(SSVectorBase|UpdateVector)<', fl['t']) and not fl['t'].rstrip().endswith(('*', '&'))]
+        if len(members) < 1:
+            continue
+        for f in sorted(fb.methods_of(cn), key=lambda g: g.line):
+            got = set()
+            for n in f.nodes:
+                if n.k == 'CXXMemberCallExpr' and n.short == 'setTolerances' and n.obj() is not None:
+                    o = strip(n.obj())
+                    if o.k == 'MemberExpr' and o.short in members:
+                        got.add(o.short)
+            if not got:
+                continue
+            k += 1
+            missing = sorted(set(members) - got)
+            rep.check(not missing, 'R17.9', '%s::%s' % (cn.replace('soplex::', ''), f.short), f.where(), 'all of %s' % sorted(got),
+                      '%s passes tolerances to %s but not to %s: assigning an object whose %s is not set up asks the destination vector for its epsilon (abort with assertions, epsilon 0 without)'
+                      % (f.short, sorted(got), missing, missing[0] if missing else ''))
+    if k < 4:
+        raise AnalysisBroken('R17.9: only %d functions passing tolerances to member vectors found' % k)
+
+
+GUARD_ACCEPTED = {
+    'SLUFactorRational::assign|(old.l.rval.dim() != 0)':
+        'in the rational LU the value vector and the index arrays are kept in step: setupRowVals() re-dimensions l.rval to mem + 1 (never 0) where it '
+        'allocates the arrays, clear() re-dimensions it to 0 where it frees them',
+}
+
+
+def guard_is_resource(fb, rep):
+    """R17.10: where a copy operation copies raw arrays of the source under a condition (memcpy from old.X inside an if), the condition tests those
+    arrays themselves (old.X != nullptr / old.X) - not another member that is usually, but not always, in step with them.  (F73:
+    SLUFactor::assign tested old.l.rval.empty() while the arrays can exist with an empty value vector and be freed with a non-empty one.)"""
+    rep.rule('R17.10', 'a copy operation that copies raw source arrays under a condition tests those arrays in the condition', floor=1)
+    k = 0
+    for f in sorted(fb.funcs.values(), key=lambda g: (g.file, g.line)):
+        if not f.name.startswith('soplex::') or not f.nodes or not (f.mk in ('copyassign', 'copyctor') or f.short in ('assign',)):
+            continue
+        src = f.params[0][0] if f.params else None
+        if not src:
+            continue
+        for n in f.nodes:
+            if n.k != 'IfStmt' or n.kid('then') is None:
+                continue
+            cp = [x for x in n.kid('then').walk() if x.k == 'CallExpr' and x.short == 'memcpy' and len(x.args()) >= 2 and render(strip(x.args()[1])).startswith(src + '.')]
+            if not cp:
+                continue
+            # only the innermost governing if
+            if any(a.k == 'IfStmt' and a.i != n.i and any(x.i == cp[0].i for x in a.walk()) and any(y.i == a.i for y in n.kid('then').walk()) for a in f.ancestors(cp[0])):
+                continue
+            cond = render(n.kid('cond'))
+            if not re.search(r'\b%s\.' % re.escape(src), cond):
+                continue          # a self-assignment test or a size test of the destination: nothing of the source's state is consulted
+            k += 1
+            arrays = sorted(set(render(strip(x.args()[1])) for x in cp))
+            tested = [a for a in arrays if a in cond]
+            acc = GUARD_ACCEPTED.get('%s|%s' % (f.name.replace('soplex::', ''), cond))
+            if acc and not tested:
+                rep.ok('R17.10', '%s|if(%s)' % (f.name.replace('soplex::', '')[:60], cond[:40]), '%s:%d' % (f.file, n.l), 'accepted: ' + acc)
+                continue
+            rep.check(bool(tested), 'R17.10', '%s|if(%s)' % (f.name.replace('soplex::', '')[:60], cond[:40]), '%s:%d' % (f.file, n.l), 'the condition tests %s' % tested,
+                      'the arrays %s are copied under the condition `%s`, which does not look at any of them: when the two disagree the copy reads a null pointer or loses data' % (arrays[:3], cond[:60]))
+    if k < 1:
+        raise AnalysisBroken('R17.10: no conditional raw-array copy found in the copy operations')
